@@ -132,15 +132,34 @@ def py_operand(o):
     raise ValueError(o)
 
 
+_OBJVIA = ["direct"]
+
+
 def mk_obj(obj):
+    """Realise the 2-D / ragged run-length object directly, or as a (still unread) ROW SELECTION of a larger one:
+    rows stored reversed and selected with [::-1], an extra leading row dropped with [1:], or a permuting index list."""
     k = obj[0]
-    if k == "matrix":
-        rows = obj[2]
-        m = np.array([dec_seq(r, obj[1]) for r in rows], dtype=DT2NP[obj[1]]).reshape(len(rows), len(rows[0]) if rows else 0)
-        return RunLength2dArray.from_array(m)
-    if k == "ragged":
-        ra = RaggedArray([dec_seq(r, obj[1]) for r in obj[2]], dtype=DT2NP[obj[1]])
-        return RunLengthRaggedArray.from_ragged_array(ra)
+    via = _OBJVIA[0]
+    if k in ("matrix", "ragged"):
+        rows = [dec_seq(r, obj[1]) for r in obj[2]]
+        n = len(rows)
+        if via == "rev":
+            stored, sel = rows[::-1], slice(None, None, -1)
+        elif via == "tail":
+            stored, sel = [rows[-1]] + rows, slice(1, None)
+        elif via == "perm" and n >= 2:
+            order = list(range(1, n)) + [0]
+            stored, sel = [rows[i] for i in order], [order.index(i) for i in range(n)]
+        elif via == "mask":
+            stored, sel = rows + [rows[0]], np.array([True] * n + [False])
+        else:
+            stored, sel = rows, None
+        if k == "matrix":
+            m = np.array(stored, dtype=DT2NP[obj[1]]).reshape(len(stored), len(stored[0]) if stored else 0)
+            r = RunLength2dArray.from_array(m)
+        else:
+            r = RunLengthRaggedArray.from_ragged_array(RaggedArray(stored, dtype=DT2NP[obj[1]]))
+        return r if sel is None else r[sel]
     if k == "intervals":
         return RunLength2dArray.from_intervals(np.array(obj[1], dtype=int), np.array(obj[2], dtype=int), int(obj[3]))
     raise ValueError(obj)
@@ -338,6 +357,7 @@ OPS = {"rl_roundtrip": op_roundtrip, "rl_getitem": op_getitem, "rl_ufunc": op_uf
 def execute(case, opts=None):
     o = opts or {}
     del _SOURCES[:]
+    _OBJVIA[0] = o.get("objvia", "direct")
     try:
         out = OPS[case[0]](case, o)
         if not sources_unchanged():
